@@ -631,6 +631,8 @@ def case_sameobject(ctx, rng, idx):
         fin = final_file_ids(wd)
         ctx.ev("final-file", fin == out["ids"], cls="same-object:missing-or-different",
                detail=d())
+        ctx.sample("same-object", {**tag, "interrupted_at_call": k, "exception": exc,
+                                   "final_ids_head": [x[:6] for x in out["ids"]]})
         ctx.sig("same-object", exc, W0, nvar, "first" if k == 1 else ("last" if k == C else "mid"),
                 bool(conf.clock_step), conf.stop_at is not None)
         shutil.rmtree(wd, ignore_errors=True)
@@ -711,6 +713,8 @@ def case_guard(ctx, rng, idx):
         ok = st2 == 0 and out is not None and all(
             len(x) == want and len(set(x)) == want for x in out["ids"])
         ctx.ev("parameter-guard", ok, cls=kind + ":should-resume", detail=d)
+    ctx.sample("guard", {**tag, "changed": kind, "override": {k: repr(v) for k, v in ov.items()},
+                         "restart_status": st2})
     ctx.sig("guard", kind, conf.rep_max)
     shutil.rmtree(wd, ignore_errors=True)
 
